@@ -1,6 +1,4 @@
 """C01 -- a step never runs more invocations at once than its worker limit; distinct slots."""
-from __future__ import annotations
-
 from harness.checks import _engine as eg
 
 LEVEL = "model_checking"
@@ -15,17 +13,4 @@ def nontrivial(tr):
 
 
 def run(chk):
-    items = eg.collect(chk, ["fanout", "collect", "wait"])
-    eg.conform_reducer(chk, items)
-    verdicts = eg.observe(chk, "C01", items, {"step_start", "step_end", "pub"})
-    seen = set()
-    for i, (label, prog, ext, tr, sched) in enumerate(items, 1):
-        clause, l = verdicts[i][0], verdicts[i][1]
-        if clause != "ok":
-            chk.violation("obs:" + clause, "step ran above its worker limit / slot discipline broken (%s) in %s" % (clause, label),
-                          {"program": prog, "schedule": eg.sched_str(sched), "at_record": l})
-        if nontrivial(tr):
-            seen.add(repr(sched))
-    chk.add(evaluations=len(items), distinct_nontrivial=len(seen))
-    chk.sample({"program": items[0][0], "schedule": eg.sched_str(items[0][4], 12)})
-    eg.model_check(chk, "C01")
+    eg.standard_run(chk, "C01", ["fanout", "collect", "wait"], {"step_start", "step_end", "pub"}, nontrivial=nontrivial)
